@@ -190,6 +190,13 @@ def build_manager(cfg):
     return mgr
 
 
+def _add_later(mgr, cfg, later):
+    """Add the last `later` sources of cfg to an existing manager (same section construction as build_manager)."""
+    full = build_manager(dict(cfg, added_later=0))
+    for src in list(full.original_config_sources)[len(cfg["sources"]) - later:]:
+        mgr.add_config_source(src)
+
+
 class _Runaway(BaseException):
     pass
 
@@ -303,6 +310,25 @@ def run(ctx):
             continue
         names = sorted({nm for s in cfg["sources"] for nm in s})
         rng.shuffle(names)
+        if len(cfg["sources"]) >= 2 and rng.random() < 0.3:
+            # staged history: collapse on a manager holding only the first sources, THEN add the later
+            # sources to that same manager; every collapse afterwards must see the full stack
+            later = rng.randrange(1, len(cfg["sources"]))
+            early = dict(cfg, sources=cfg["sources"][: len(cfg["sources"]) - later], added_later=0)
+            try:
+                mgr = build_manager(early)
+                for root in sorted({nm for s in early["sources"] for nm in s}):
+                    if rng.random() < 0.6:
+                        judge(ctx, early, root, mgr, record=False, how="staged-early")
+                _add_later(mgr, cfg, later)
+                ctx.count("staged_histories")
+            except Exception as e:  # noqa: BLE001
+                ctx.violation("staged-add-config-source-raised", {"sources": cfg["sources"], "exc": repr(e), "rule": "staged"})
+                continue
+            for root in names:
+                judge(ctx, cfg, root, mgr, record=False, how="staged-after-add")
+                ctx.count("staged_collapses_after_add")
+            continue
         for root in names:
             ok = judge(ctx, cfg, root, mgr)
             if ok is not None and rng.random() < 0.15:
